@@ -79,6 +79,43 @@ class Ctx:
             self._program = Program(self.pkg)
         return self._program
 
+    @property
+    def canon(self):
+        if getattr(self, "_canon", None) is None:
+            from .canon import Canon
+            self._canon = Canon(self.program)
+        return self._canon
+
+    def locate(self, qual: str):
+        """'pkg.module.Class.method' | 'pkg.module.function' -> (FunctionDef, Module, Class | None); exit 2 when absent"""
+        parts = qual.split(".")
+        for i in range(len(parts) - 1, 0, -1):
+            mn = ".".join(parts[:i])
+            if mn in self.program.modules:
+                m = self.program.modules[mn]
+                tail = parts[i:]
+                if len(tail) == 1 and tail[0] in m.functions:
+                    return m.functions[tail[0]], m, None
+                if len(tail) == 2 and tail[0] in m.classes and tail[1] in m.classes[tail[0]].methods:
+                    c = m.classes[tail[0]]
+                    return c.methods[tail[1]], m, c
+                break
+        raise AnalysisError(f"anchor vanished: {qual}")
+
+    def cfn(self, qual: str, **kw):
+        """the function with its body in canonical form (hv/canon.py)"""
+        fn, m, c = self.locate(qual)
+        return self.canon.fn(fn, m, c, **kw)
+
+    def paths(self, qual: str, bound: int = 512, **kw):
+        """path summaries (hv/paths.py) of the canonical body"""
+        from .paths import PathBound, summaries
+        fn = self.cfn(qual, subst=False, **kw)
+        try:
+            return summaries(fn.body, bound)
+        except PathBound:
+            raise AnalysisError(f"{qual}: more than {bound} paths")
+
     # ---- registration -----------------------------------------------------------
     def rule(self, rid: str, text: str, floor: int = 1) -> None:
         self.rules[rid] = text
